@@ -14,7 +14,7 @@ from bctmc.tally import Tally
 from bctmc import dtypes
 
 PROPERTY = 'C09'
-RULE = ('element types: every routine also on int64 / int32 / uint8 / bool copies of all 3-node digraphs over {0,1} and {0,1,2}, 4-node graphs over {0,1,2} and {-1,0,1}, 5-node binary graphs (same values as for float64; integers must not raise, a boolean matrix may be rejected with TypeError); the structured 7-10 node family of bctmc/named.py (binary and weights {1/8,1}) and all undirected graphs n<=5 and digraphs n<=4 (binary); weights {1/8,1} on 4-node graphs and 3-node digraphs; '
+RULE = ('all 3-node weighted digraphs over {0, 4e-9, 1/2, 1} (nearly symmetric matrices with a very weak one-way connection); element types: every routine also on int64 / int32 / uint8 / bool copies of all 3-node digraphs over {0,1} and {0,1,2}, 4-node graphs over {0,1,2} and {-1,0,1}, 5-node binary graphs (same values as for float64; integers must not raise, a boolean matrix may be rejected with TypeError); the structured 7-10 node family of bctmc/named.py (binary and weights {1/8,1}) and all undirected graphs n<=5 and digraphs n<=4 (binary); weights {1/8,1} on 4-node graphs and 3-node digraphs; '
         'signed {-1,-1/8,0,1/8,1} and {-1,-1e-9,0,1e-9,1} (connections weaker than common tolerances) on 4 nodes and {-1,0,1} on 5 nodes for clustering_coef_wu_sign x 3 coef types (thorough: binary n=6, weighted '
         'n=5 und and n=4 dir); non-trivial = graph with at least one triangle and at least one node on no triangle')
 ASSUMPTIONS = ['float64 inputs with empty diagonal; weights 1/8 and 1 (cube roots 1/2 and 1)',
@@ -30,6 +30,7 @@ FAMILIES = {
     'bin_dir3': ('d', 3, BIN, 'q'), 'bin_dir4': ('d', 4, BIN, 'q'),
     'wt_und4': ('u', 4, WT, 'q'), 'wt_dir3': ('d', 3, WT, 'q'),
     'sg_und4': ('s', 4, SG, 'q'), 'sg_und5': ('s', 5, (-1, 0, 1), 'q'), 'sg_tiny4': ('s', 4, (-1, -1e-9, 0, 1e-9, 1), 'q'), 'wt_tiny4': ('u', 4, (0, 1e-9, 1), 'q'),
+    'wd_tiny3': ('d', 3, (0, 4e-9, 0.5, 1), 'q'),     # a one-directional connection below any symmetry tolerance
     'bin_und6': ('u', 6, BIN, 't'), 'wt_und5': ('u', 5, WT, 't'), 'wt_dir4': ('d', 4, WT, 't'),
 }
 
